@@ -66,4 +66,33 @@ def walkChains (V : Ver) (g : Graph) (c : Cert) : List (List Cert) :=
   let s := startEdge V g c
   walk g (maxIntermediateCount - 1) [s.cert] s
 
+/-! ### histories on one graph: insertions and walks interleaved
+
+    `WalkChains` / `WalkChainsAsync` only READ the graph (the start edge synthesized for a certificate
+    that is not in the graph is a local value, never stored): a walk event leaves the state as it is. -/
+
+inductive Ev where
+  | ins (op : Op)      -- AddCert / AddRoot
+  | walk (c : Cert)    -- WalkChains(c) or WalkChainsAsync(c, _) drained
+  deriving Repr, DecidableEq
+
+/-- one event: the new graph and, for a walk, the chains returned -/
+def evStep (V : Ver) (g : Graph) : Ev → Res (Graph × Option (List (List Cert)))
+  | .ins op =>
+    match step V g op with
+    | .ok g1 => .ok (g1, none)
+    | _ => .panic
+  | .walk c => .ok (g, some (walkChains V g c))
+
+/-- the observations of a history: after every event the graph and the chains (if it was a walk) -/
+def history (V : Ver) : Graph → List Ev → Res (List (Graph × Option (List (List Cert))))
+  | _, [] => .ok []
+  | g, e :: es =>
+    match evStep V g e with
+    | .ok (g1, o) =>
+      match history V g1 es with
+      | .ok rest => .ok ((g1, o) :: rest)
+      | _ => .panic
+    | _ => .panic
+
 end ZV.C11
